@@ -537,6 +537,8 @@ func (s *State) evalBuiltin(node *ast.Builtin) object.Object {
 	case token.CATCH:
 		isError := rt == object.ERROR
 		if isError {
+			// Errors are not cached (could be a deadline, a binding...): neither is what catches one.
+			s.env.TriggerNoCache()
 			val = object.String{Value: val.(object.Error).Value}
 		}
 		return object.MakeQuad(ErrorKey, object.NativeBoolToBooleanObject(isError), object.ValueKey, object.Value(val))
